@@ -239,6 +239,23 @@ func exploreEdges(start *ssa.BasicBlock, init *pstate, stop func(b *ssa.BasicBlo
 			return len(seen), true
 		}
 		for _, ins := range it.b.Instrs {
+			// (re-)executing the definition of a value makes what was known about its previous incarnation stale
+			if v, ok := ins.(ssa.Value); ok {
+				n := v.Name()
+				delete(st.facts, "v:"+n)
+				delete(st.facts, "cond:v:"+n)
+				delete(st.facts, "len:v:"+n)
+			}
+			// a call of module code may change memory: facts about loads from anything but local variables go
+			if c, ok := ins.(*ssa.Call); ok {
+				if _, isB := c.Call.Value.(*ssa.Builtin); !isB {
+					for k := range st.facts {
+						if strings.HasPrefix(k, "load:") && !strings.HasPrefix(k, "load:alloc:") {
+							delete(st.facts, k)
+						}
+					}
+				}
+			}
 			visit(ins, st)
 		}
 		last := it.b.Instrs[len(it.b.Instrs)-1]
